@@ -4,7 +4,20 @@ import gridlib as gl
 import c02
 
 
+def unbounded_history(rnd, label):
+    """Gauss-Hermite / Gauss-Laguerre grids (unbounded domains: shift and scale / rate), always transformed and loaded"""
+    d = rnd.choice([1, 2, 2, 3])
+    rule = rnd.choice(["gauss-hermite", "gauss-hermite-odd", "gauss-laguerre", "gauss-laguerre-odd"])
+    a = [rnd.choice([-1, 0, 2]) for _ in range(d)]
+    b = [rnd.choice([2, 4, 0.5, 0.25, 3]) for _ in range(d)]
+    return "\n".join(["SCEN " + label,
+                      "make global %d %d %d level %s 0 0 %g 0" % (d, rnd.choice([1, 2]), rnd.randint(1, {1: 4, 2: 3, 3: 2}[d] - (1 if rule.endswith("odd") else 0)), rule, rnd.choice([0.0, 0.5, 1.0, 2.0])),
+                      "transform %d %s %d %s" % (d, " ".join(map(str, a)), d, " ".join(map(str, b))), "load 1"]) + "\n"
+
+
 def transform_history(rnd, label):
+    if rnd.random() < 0.12:
+        return unbounded_history(rnd, label)
     for _ in range(20):
         txt = c02.exact_history(rnd, label, ["global", "global", "sequence", "fourier", "localp", "wavelet"])
         if "transform" in txt:
@@ -14,7 +27,7 @@ def transform_history(rnd, label):
     if parts[0] == "make" and parts[3] == "0" and rnd.random() < 0.7:
         parts[3] = "1"
         L[1] = " ".join(parts)
-    if not any(x.startswith("load") for x in L) and parts[3] != "0" and not any(r in L[1] for r in c02.GAUSS):
+    if not any(x.startswith("load") for x in L) and parts[3] != "0":
         L.append("load 1")
     return "\n".join(L) + "\n"
 
